@@ -111,6 +111,16 @@ def r1(ctx):
                 i = ordinal.get(what, 0)
                 ordinal[what] = i + 1
                 ctx.bad("R1", f"{f.site()}::{what}#{i}", f"draws from / depends on process-global state: `{U(c)[:70]}`")
+        # the global generator module used as a generator object: `rng = np.random`, `f(rng=np.random)`, `random.Random` is fine
+        par_attr = {id(n.value) for n in walk_own(f.node) if isinstance(n, ast.Attribute)}
+        for n in walk_own(f.node):
+            if isinstance(n, (ast.Attribute, ast.Name)) and isinstance(getattr(n, "ctx", None), ast.Load) and id(n) not in par_attr:
+                d = dotted(R, f.mod, n)
+                if d in ("numpy.random", "random"):
+                    what = f"{'np.random' if d == 'numpy.random' else 'random'} module as a generator"
+                    i = ordinal.get(what, 0)
+                    ordinal[what] = i + 1
+                    ctx.bad("R1", f"{f.site()}::{what}#{i}", f"the process-global generator module `{U(n)}` is used as a generator object (every draw through it is unseeded)")
         # iteration over a set of strings (order depends on PYTHONHASHSEED)
         for n in walk_own(f.node):
             it = None
